@@ -15,6 +15,21 @@ from sympy.core.function import AppliedUndef
 from .front import AnalysisError, src
 
 
+ITER = sp.Function('__iterate')      # ITER(step, placeholder, start, var, lo, hi): see SymExec._recurrence
+
+
+def expand_iter(e, inst=lambda x: x):
+    """Value of an ITER node whose bounds are concrete integers (after `inst`, the caller's instantiation of bounds and operands)."""
+    step, ph, start, var, lo, hi = e.args
+    lo, hi = inst(sp.sympify(lo)), inst(sp.sympify(hi))
+    if not (lo.is_Integer and hi.is_Integer):
+        return None
+    acc = inst(start)
+    for v in range(int(lo), int(hi) + 1):
+        acc = inst(step.xreplace({ph: acc, var: sp.Integer(v)}))
+    return acc
+
+
 class Unsupported(AnalysisError):
     pass
 
@@ -498,14 +513,26 @@ class SymExec:
             if op == '*':
                 factor = sp.simplify(res / ph[k])
                 if factor.has(ph[k]):
-                    raise Unsupported('non-multiplicative accumulate of %s at line %s' % (k, s.lineno))
+                    env[k] = self._recurrence(k, res, ph, start, iv, lo, hi, s)
+                    continue
                 env[k] = start * sp.Product(factor, (iv, lo, hi - 1))
             else:
                 term = sp.expand(res - ph[k])
                 if term.has(ph[k]):
-                    raise Unsupported('non-additive accumulate of %s at line %s' % (k, s.lineno))
+                    env[k] = self._recurrence(k, res, ph, start, iv, lo, hi, s)
+                    continue
                 env[k] = start + sp.Sum(term, (iv, lo, hi - 1))
         return env
+
+    def _recurrence(self, k, res, ph, start, iv, lo, hi, s):
+        """A loop-carried value that is neither a running product nor a running sum of terms free of itself (`x *= x`, `a = 2*a + 1`):
+        kept as an ITER node - the value after iterating  acc -> res[acc]  for iv = lo..hi-1  from `start` - which a rule expands once
+        the bounds are concrete (expand_iter).  Coupled recurrences (the body reads another accumulator of the same loop) are not
+        represented."""
+        others = [v for kk, v in ph.items() if kk != k]
+        if any(res.has(o) for o in others):
+            raise Unsupported('coupled accumulators (%s) at line %s' % (k, s.lineno))
+        return ITER(res, ph[k], start, iv, lo, hi - 1)
 
     def _acc_targets(self, body):
         accs = {}
